@@ -53,6 +53,14 @@ def gen(args) -> list:
     for typ, ptext, forced_culture in todo:
         culture = forced_culture if forced_culture is not None else rnd.choice(cults)
         ev = {"op": "pattern", "type": typ, "pattern": cps(ptext), "culture": culture.name if culture is not None else "", "parses": []}
+        if typ == "LocalTime":
+            # for the reference parser (PatternParse.tla): the culture's time separator; parsed values are logged below
+            try:
+                from harness.props.c07 import _fi as _fi7
+
+                ev["tsep"] = cps(_fi7(culture).time_separator)
+            except Exception:  # noqa: BLE001
+                pass
         signal.alarm(10)
         try:
             pat = textgen.create(typ, ptext, culture)
@@ -81,13 +89,15 @@ def gen(args) -> list:
                     inputs.append(textgen.mutate(t, rnd))
             inputs += [textgen.mutate("", rnd), ""]
             for text in inputs:
-                p = {"text": cps(text[:200]), "valid": False, "error_available": False}
+                p = {"text": cps(text[:200]), "valid": False, "error_available": False, "whole": len(text) <= 200}
                 signal.alarm(10)
                 try:
                     r = pat.parse(text)
                     if r.success:
                         p["out"] = "success"
                         p["valid"] = textgen.is_valid(typ, r.value)
+                        if typ == "LocalTime" and p["valid"]:
+                            p["nod"] = [r.value.nanosecond_of_day // 10**9, r.value.nanosecond_of_day % 10**9]
                     else:
                         p["out"] = "failure"
                         ok = isinstance(r.exception, Exception)
